@@ -58,6 +58,9 @@ def message(fmt, inner, digest):
         # the covered region is delimited from the end (everything up to the digest), inside a length-prefixed record that does
         # not start at offset 0 of the stream
         return ["Struct", [["hdr", B], ["msg", ["Prefixed", B, ["Struct", [["fields", ["OffsettedEnd", -dn, ["RawCopy", ir]]], ["checksum", ck]]]]], ["after", B]]]
+    if fmt == "fixedblock":
+        # the whole record (covered region + digest) sits in a fixed-size block that does not start at offset 0
+        return ["Struct", [["hdr", ["Bytes", 3]], ["blk", ["FixedSized", 48, ["Struct", [["fields", ["RawCopy", ir]], ["checksum", ck]]]]], ["after", B]]]
     if fmt == "focused":
         # the record written with FocusedSeq (the result is the RawCopy container itself)
         return ["Struct", [["hdr", B], ["rec", ["FocusedSeq", "fields", [["fields", ["RawCopy", ir]], ["checksum", ck]]]], ["after", B]]]
@@ -72,6 +75,8 @@ def msg_value(fmt, v):
         return {"hdr": 7, "msg": {"fields": {"value": v}}, "after": 9}
     if fmt == "focused":
         return {"hdr": 7, "rec": {"value": v}, "after": 9}
+    if fmt == "fixedblock":
+        return {"hdr": b"HDR", "blk": {"fields": {"value": v}}, "after": 9}
     if fmt == "header":
         return {"fields": {"value": v}, "trail": 3}
     return {"fields": {"value": v}}
@@ -79,7 +84,7 @@ def msg_value(fmt, v):
 
 def region_start(fmt, digest):
     dn = DIGESTS[digest][1]
-    return {"trailing": 0, "pointer": dn, "prefixed": 2, "header": 2, "footer": 0, "offsetted": 2, "focused": 1}[fmt]
+    return {"trailing": 0, "pointer": dn, "prefixed": 2, "header": 2, "footer": 0, "offsetted": 2, "focused": 1, "fixedblock": 3}[fmt]
 
 
 def reference_verdict(fmt, inner, digest, msg):
@@ -101,6 +106,10 @@ def reference_verdict(fmt, inner, digest, msg):
         return ("reject",)
     if fmt == "footer" and msg[FOOT:FOOT + 3] != b"END":
         return ("reject",)
+    if fmt == "fixedblock":
+        if len(msg) < 3 + 48 + 1:
+            return ("reject",)
+        view = msg[:3 + 48]
     start = region_start(fmt, digest)
     inner_view = view
     if fmt == "offsetted":
@@ -155,7 +164,7 @@ def run_message(ctx, case):
     except Exception as e:
         ctx.violation("built-checksum-does-not-verify:%s:%s" % (fmt, type(e).__name__), "parse(build(v)) raised %s: %s" % (type(e).__name__, e), case)
         return
-    f = back.msg.fields if fmt in ("prefixed", "offsetted") else back.rec if fmt == "focused" else back.fields
+    f = back.msg.fields if fmt in ("prefixed", "offsetted") else back.rec if fmt == "focused" else back.blk.fields if fmt == "fixedblock" else back.fields
     if not veq(f.value, mk(ir).parse(enc)) or f.data != enc:
         ctx.violation("checksum-roundtrip-value:" + fmt, "parsed fields differ from what was built", case)
     ctx.count("messages")
@@ -204,6 +213,8 @@ def run_message(ctx, case):
         where = "digest" if dpos <= bit // 8 < dpos + len(hb) else "region" if start <= bit // 8 < start + len(enc) else "framing"
         if fmt == "footer" and where == "framing" and not (FOOT <= bit // 8 < FOOT + 3) and bit % 16:
             continue            # the unused gap before the footer: sample it
+        if fmt == "fixedblock" and where == "framing" and bit // 8 >= dpos + len(hb) and bit % 16:
+            continue            # the zero padding of the block: sample it
         ctx.count("flips_in_" + where)
         if want[0] == "accept":
             ctx.count("flips_that_still_verify_per_reference")
@@ -374,7 +385,7 @@ def run_case(ctx, case):
 
 def run(ctx):
     rng = ctx.rng
-    fmts = ["trailing", "pointer", "prefixed", "header", "footer", "offsetted", "focused"]
+    fmts = ["trailing", "pointer", "prefixed", "header", "footer", "offsetted", "focused", "fixedblock"]
     combos = [(f, i, g) for f in fmts for i in INNERS for g in DIGESTS]
     per = ctx.pick(1, 12)
     if ctx.index == 0:
